@@ -198,9 +198,10 @@ func DeleteMailboxPerUser(db *sql.DB, userID int64, mailboxName string) error {
 		return fmt.Errorf("mailbox has inferior hierarchical names")
 	}
 
-	// Also check for hierarchical children by naming convention (mailboxName/*)
-	hierarchyPattern := mailboxName + "/%"
-	err = db.QueryRow("SELECT COUNT(*) FROM mailboxes WHERE user_id = ? AND name LIKE ?", userID, hierarchyPattern).Scan(&count)
+	// Also check for hierarchical children by naming convention (mailboxName/*).
+	// The prefix is compared exactly: LIKE would treat '_' and '%' in the name as wildcards and ignore case
+	hierarchyPrefix := mailboxName + "/"
+	err = db.QueryRow("SELECT COUNT(*) FROM mailboxes WHERE user_id = ? AND substr(name, 1, length(?)) = ?", userID, hierarchyPrefix, hierarchyPrefix).Scan(&count)
 	if err != nil {
 		return err
 	}
@@ -296,9 +297,10 @@ func RenameMailboxPerUser(db *sql.DB, userID int64, oldName, newName string) err
 		return err
 	}
 
-	// Rename all hierarchical children
-	hierarchyPattern := oldName + "/%"
-	rows, err := tx.Query("SELECT id, name FROM mailboxes WHERE user_id = ? AND name LIKE ?", userID, hierarchyPattern)
+	// Rename all hierarchical children.
+	// The prefix is compared exactly: LIKE would treat '_' and '%' in the name as wildcards and ignore case
+	hierarchyPrefix := oldName + "/"
+	rows, err := tx.Query("SELECT id, name FROM mailboxes WHERE user_id = ? AND id != ? AND substr(name, 1, length(?)) = ?", userID, mailboxID, hierarchyPrefix, hierarchyPrefix)
 	if err != nil {
 		return err
 	}
